@@ -209,6 +209,14 @@ func (c *Client) Close()            { atomic.StoreInt32(&c.closing, 1); _ = c.nc
 func (c *Client) LocalAddr() string { return c.nc.LocalAddr().String() }
 func (c *Client) Received() int64   { return atomic.LoadInt64(&c.nrecv) }
 
+// ForgetFrames drops everything received so far (bulk traffic whose replies were already looked at).
+func (c *Client) ForgetFrames() {
+	c.mu.Lock()
+	c.recv = nil
+	c.byStr = map[int16][]*Frame{}
+	c.mu.Unlock()
+}
+
 // Frames returns a copy of everything received so far.
 func (c *Client) Frames() []*Frame {
 	c.mu.Lock()
